@@ -171,6 +171,34 @@ def _buffer_views(ns, a, mode):
     w[1] = w[0] * a[3]
     return b                            # read through the buffer
 
+# data movement on matrices / vectors and the matrix factorizations (reverse mode of these is only exercised through programs)
+def _sqs(s, p): return s[0] if len(s[0]) == 2 and s[0][0] == s[0][1] else None
+def _spd(ns, a): return ns.dot(a, a.T) + _eye(ns, a)
+def _shifted(ns, a): return a + _eye(ns, a)
+def _symd(ns, a):
+    n = numpy.shape(a)[0]; return a + a.T + numpy.diag(2.0 * numpy.arange(1., n + 1))        # symmetric with well separated eigenvalues
+op('tile2', 1, lambda s, p: (2 * s[0][0],) if len(s[0]) == 1 else None)(lambda ns, a: ns.tile(a, 2))
+op('diag_v', 1, lambda s, p: (s[0][0], s[0][0]) if len(s[0]) == 1 else None)(lambda ns, a: ns.diag(a))
+op('diag_m', 1, lambda s, p: (s[0][0],) if _sqs(s, p) else None)(lambda ns, a: ns.diag(a))
+op('triu', 1, _sqs)(lambda ns, a: ns.triu(a)); op('tril', 1, _sqs)(lambda ns, a: ns.tril(a))
+op('symvec', 1, lambda s, p: ((s[0][0] * (s[0][0] + 1)) // 2,) if _sqs(s, p) else None)(lambda ns, a: ns.symvec(a + a.T))
+op('vecsym', 1, lambda s, p: {3: (2, 2), 6: (3, 3)}.get(s[0][0]) if len(s[0]) == 1 else None)(lambda ns, a: ns.vecsym(a))
+op('det_p', 1, lambda s, p: () if _sqs(s, p) else None)(lambda ns, a: ns.det(_spd(ns, a)))
+op('logdet_p', 1, lambda s, p: () if _sqs(s, p) else None)(lambda ns, a: ns.logdet(_spd(ns, a)))
+op('cholesky_p', 1, _sqs)(lambda ns, a: ns.cholesky(_spd(ns, a)))
+op('qr_Q', 1, _sqs)(lambda ns, a: ns.qr(_shifted(ns, a))[0]); op('qr_R', 1, _sqs)(lambda ns, a: ns.qr(_shifted(ns, a))[1])
+op('eigh_l', 1, lambda s, p: (s[0][0],) if _sqs(s, p) else None)(lambda ns, a: ns.eigh(_symd(ns, a))[0]); op('eigh_Q', 1, _sqs)(lambda ns, a: ns.eigh(_symd(ns, a))[1])
+op('svd_s', 1, lambda s, p: (s[0][0],) if _sqs(s, p) else None)(lambda ns, a: ns.svd(_shifted(ns, a))[1])
+op('svd_U', 1, _sqs)(lambda ns, a: ns.svd(_shifted(ns, a))[0]); op('svd_V', 1, _sqs)(lambda ns, a: ns.svd(_shifted(ns, a))[2])
+op('lu_L', 1, _sqs)(lambda ns, a: ns.lu(_shifted(ns, a))[1]); op('lu_U', 1, _sqs)(lambda ns, a: ns.lu(_shifted(ns, a))[2])
+op('qrfull_R', 1, _sqs)(lambda ns, a: ns.qr_full(_shifted(ns, a))[1])
+op('fft_re', 1, lambda s, p: s[0] if len(s[0]) == 1 else None)(lambda ns, a: ns.real(ns.fft.fft(a)) if hasattr(ns.A, 'fft') else numpy.real(numpy.fft.fft(a)))
+op('ifft_im', 1, lambda s, p: s[0] if len(s[0]) == 1 else None)(lambda ns, a: ns.imag(ns.fft.ifft(a)) if hasattr(ns.A, 'fft') else numpy.imag(numpy.fft.ifft(a)))
+op('ifft_re', 1, lambda s, p: s[0] if len(s[0]) == 1 else None)(lambda ns, a: ns.real(ns.fft.ifft(a)) if hasattr(ns.A, 'fft') else numpy.real(numpy.fft.ifft(a)))
+op('fft_im', 1, lambda s, p: s[0] if len(s[0]) == 1 else None)(lambda ns, a: ns.imag(ns.fft.fft(a)) if hasattr(ns.A, 'fft') else numpy.imag(numpy.fft.fft(a)))
+op('prod', 1, lambda s, p: () if len(s[0]) == 1 else None)(lambda ns, a: ns.prod(a))
+MATRIX_OPS = ('diag_m', 'triu', 'tril', 'symvec', 'det_p', 'logdet_p', 'cholesky_p', 'qr_Q', 'qr_R', 'eigh_l', 'eigh_Q', 'svd_s', 'svd_U', 'svd_V', 'lu_L', 'lu_U', 'qrfull_R')
+
 # small linear algebra on a well-conditioned matrix built from the input
 def _sq(shps, p): return shps[0] if len(shps[0]) == 2 and shps[0][0] == shps[0][1] else None
 op('inv_p', 1, _sq)(lambda ns, a: ns.inv(ns.dot(a, a.T) + _eye(ns, a)))
@@ -225,7 +253,8 @@ def single_op_programs(N=4):
     for nm, o in OPS.items():
         if nm in ('getitem', 'reshape', 'sum', 'buffer', 'dot_c', 'buffer_views'): continue
         if o['arity'] == 1 and 'c' not in o['f'].__code__.co_varnames[:3]:
-            if nm in ('transpose', 'trace', 'inv_p'):
+            if nm == 'vecsym': out.append(Program(N, [(1, 'getitem', (0,), {'sl': slice(0, 3)}), (2, 'vecsym', (1,), {})], nm)); continue
+            if nm in ('transpose', 'trace', 'inv_p') + MATRIX_OPS:
                 out.append(Program(N, mat + [(2, 'add_c', (1,), {'c': numpy.arange(N, dtype=float).reshape(n, n) / 4.0}), (3, nm, (2,), {})], nm))
             else: out.append(Program(N, [(1, nm, (0,), {})], nm))
         elif o['arity'] == 1:
